@@ -15,6 +15,11 @@ CONSTANTS
   Menu = {{}, {1}, {0, 3}, {0, 2, 3}, {1, 2, 3}}
   Moods = {"quiet", "plain", "plain", "reorg", "reorg"}
   MaxReorgs = 1
+  MsgLates = {0, 1, 2, 5, 9, 13}
+  AucLates = {0, 1, 2, 36, 44}
+  SubLates = {0, 2, 11, 14}
+  AttLates = {0, 3, 6, 9}
+  MaxHeld = 2
   Focus = FALSE
   Fams = {"all"}
 INVARIANTS Emit AttestedBounded SubsBounded RootsBounded RecordsBounded JobsBounded PendingExact
